@@ -1139,3 +1139,97 @@ class DepAlg(Alg):
 
   def fresh_array(self, nm, shape, kind, P):
     raise Unsupported('opaque call in DEP analysis')
+
+
+# ------------------------------------------------------------------------------------------------
+class SymAlg(Alg):
+  """Back end SYM: sympy expressions; transcendental functions are sympy's own, so identities between them are
+  decided by sympy's normalisers after a case split on signs (symbols are created positive / negative)."""
+  name = 'sym'
+
+  def __init__(self):
+    import sympy
+    self.sp = sympy
+
+  def var(self, name, **assume):
+    return self.sp.Symbol(name, real=True, **assume)
+
+  def _s(self, a):
+    sp = self.sp
+    if isinstance(a, bool):
+      return sp.true if a else sp.false
+    if isinstance(a, int):
+      return sp.Integer(a)
+    if isinstance(a, Fraction):
+      return sp.Rational(a.numerator, a.denominator)
+    if isinstance(a, float):
+      if isinf(a):
+        return sp.oo if a > 0 else -sp.oo
+      f = Fraction(a)
+      return sp.Rational(f.numerator, f.denominator)
+    return a
+
+  def _add(self, a, b): return self._s(a) + self._s(b)
+  def _sub(self, a, b): return self._s(a) - self._s(b)
+  def _mul(self, a, b): return self._s(a) * self._s(b)
+  def _neg(self, a): return -a
+  def _div(self, a, b): return self._s(a) / self._s(b)
+  def _sqrt(self, a): return self.sp.sqrt(self._s(a))
+  def _abs(self, a): return self.sp.Abs(a)
+  def _sign(self, a): return self.sp.sign(a)
+  def _max(self, a, b): return self.sp.Max(self._s(a), self._s(b))
+  def _min(self, a, b): return self.sp.Min(self._s(a), self._s(b))
+
+  def _cmp(self, op, a, b):
+    sp = self.sp
+    a, b = self._s(a), self._s(b)
+    r = {'lt': sp.Lt, 'le': sp.Le, 'gt': sp.Gt, 'ge': sp.Ge, 'eq': sp.Eq, 'ne': sp.Ne}[op](a, b)
+    if r is sp.true:
+      return True
+    if r is sp.false:
+      return False
+    return r
+
+  def _and(self, a, b): return self.sp.And(self._s(a), self._s(b))
+  def _or(self, a, b): return self.sp.Or(self._s(a), self._s(b))
+  def _not(self, a): return self.sp.Not(a)
+
+  def _ite(self, c, a, b):
+    return self.sp.Piecewise((self._s(a), c), (self._s(b), True))
+
+  def _to_float(self, a):
+    if isinstance(a, self.sp.logic.boolalg.Boolean):
+      return self.sp.Piecewise((1, a), (0, True))
+    return a
+
+  def _to_bool(self, a):
+    return self._cmp('ne', a, 0)
+
+  def _fn(self, name, *args):
+    sp = self.sp
+    args = [self._s(a) for a in args]
+    table = {'exp': sp.exp, 'log': sp.log, 'tanh': sp.tanh, 'log1p': lambda x: sp.log(1 + x), 'sin': sp.sin, 'cos': sp.cos,
+             'expm1': lambda x: sp.exp(x) - 1, 'atan2': sp.atan2, 'acos': sp.acos, 'asin': sp.asin, 'atan': sp.atan, 'sinh': sp.sinh, 'cosh': sp.cosh,
+             'tan': sp.tan, 'erf': sp.erf, 'logistic': lambda x: 1 / (1 + sp.exp(-x)), 'pow': lambda x, y: x ** y, 'atanh': sp.atanh, 'exp2': lambda x: 2 ** x}
+    if name not in table:
+      raise Unsupported('SYM: function %s' % name)
+    return table[name](*args)
+
+  def _inexact_const(self, name, args, v):
+    return self._fn(name, *args)
+
+  def is_zero(self, e, assumptions_note=''):
+    """normaliser recipe (DESIGN 7 C20): expand_log of factor(cancel(together(arg))) for every log, then simplify"""
+    sp = self.sp
+    e = self._s(e)
+    if e == 0:
+      return True
+    e = e.rewrite(sp.exp) if e.has(sp.tanh) else e
+
+    def fix_log(expr):
+      return expr.replace(lambda x: isinstance(x, sp.log), lambda x: sp.expand_log(sp.log(sp.factor(sp.cancel(sp.together(x.args[0])))), force=True))
+    e2 = sp.simplify(fix_log(sp.simplify(e)))
+    if e2 == 0:
+      return True
+    e3 = sp.simplify(sp.expand_log(sp.logcombine(sp.expand(e2), force=True), force=True))
+    return e3 == 0
